@@ -173,7 +173,9 @@ class Sim(object):
         t.state = BLOCKED
         t.woken = False
         t.waitset = waitset
-        t.deadline = None if timeout is None else self.now + max(timeout, 0.0)
+        # a zero/negative timed wait still costs a microsecond of virtual time, so that loops polling
+        # the clock around timed waits make progress (they would on a real clock)
+        t.deadline = None if timeout is None else self.now + max(timeout, 1e-6)
         t.why = why
         waitset.append(t)
         self._park()
